@@ -104,9 +104,24 @@ def mask_as(mask, kind):
     return mask
 
 
+SHAPE2D = dict(shape=None)
+
+
 def one_step(M, f, jac, y, h, dtype, mask, via, implicit, cache=None):
     """one real step from state y.  With a cache dict the SAME integrator object serves every evaluation of the case
-    (the natural way to evaluate a one-step map at several states); without, a fresh object is built per evaluation."""
+    (the natural way to evaluate a one-step map at several states); without, a fresh object is built per evaluation.
+    With SHAPE2D['shape'] set (splitting methods only) the integrator sees the state as an array of that shape - rows (q_i, p_i) for the interleaved layout,
+    the kick mask marking the momentum COLUMN - while the caller keeps working with the flat vector."""
+    shp = SHAPE2D["shape"]
+    if shp is not None and not implicit:
+        f_flat = f
+        SHAPE2D["shape"] = None
+        try:
+            dT, y1 = one_step(M, (lambda t, Y, **kw: f_flat(t, np.reshape(Y, (-1,)), **kw).reshape(shp)), jac, np.reshape(y, shp), h, dtype,
+                              (None if mask is None else np.reshape(np.asarray(mask), shp)), via, implicit, cache)
+        finally:
+            SHAPE2D["shape"] = shp
+        return dT, np.reshape(y1, (-1,))
     de, I = _imports()
     if cache is not None and "m" in cache:
         new_dt, (dT, dY) = cache["m"](cache["rhs"], dtype(0), y, {}, dtype(h))
@@ -169,6 +184,7 @@ def map_case(case):
         sts = sts[:1]
     worst = 0.0
     cache = {} if case.get("reuse") else None
+    SHAPE2D["shape"] = tuple(case["shape2d"]) if case.get("shape2d") else None
     warm_up(case, M, f, jac, sts[0], h, dtype, mask, implicit, cache)
     for y0 in sts:
         y0 = y0.astype(dtype)
@@ -207,7 +223,7 @@ def map_case(case):
             r.v("C10/symplectic/%s" % case["method"], "M^T J M = J for the one-step map", dict(case, y0=y0.astype(float)),
                 observed=dict(defect=defect, tol=tol), expected="<= tol")
             break
-    r.out(("map", case["method"], case["H"], case["layout"], case["via"], h > 0, bool(case.get("reuse")), case.get("mask_kind"), case.get("warm")))
+    r.out(("map", case["method"], case["H"], case["layout"], case["via"], h > 0, bool(case.get("reuse")), case.get("mask_kind"), case.get("warm"), bool(case.get("shape2d"))))
     if case.get("sample"):
         r.samples.append(dict(section="map", case={k: v for k, v in case.items() if k != "sample"}, states=len(sts), worst_ratio=worst))
     return r
@@ -226,6 +242,7 @@ def reverse_case(case):
     mask = mask_as(mask, case.get("mask_kind"))
     h = case["h"]
     cache = {} if case.get("reuse") else None
+    SHAPE2D["shape"] = tuple(case["shape2d"]) if case.get("shape2d") else None
     warm_up(case, M, f, jac, states(dof, True)[0], h, dtype, mask, implicit, cache)
     for y0 in states(dof, True):
         y0 = y0.astype(dtype)
@@ -395,6 +412,15 @@ def run(ctx):
                             for w in (1e8, 1e-8):
                                 cases.append(dict(section="reverse", method=M.__name__, H=H, layout=lay, via=via, h=h, reuse=True, warm=w))
                                 cases.append(dict(section="map", method=M.__name__, H=H, layout=lay, via=via, h=h, quick=True, reuse=True, warm=w))
+        if not implicit:
+            # matrix-shaped states: rows (q_i, p_i), the kick mask marks the momentum column (it varies along the LAST axis); and the transposed arrangement
+            for H in ("coupled", "henon"):
+                for via in ("ctor", "system", "system-kick-first"):
+                    for h in (0.1, -0.1):
+                        for shp, lay in (([2, 2], "interleaved"), ([2, 2], "default")):
+                            cases.append(dict(section="map", method=M.__name__, H=H, layout=lay, via=via, h=h, quick=True, shape2d=shp))
+                            if M.__name__ in SYMMETRIC and via == "ctor":
+                                cases.append(dict(section="reverse", method=M.__name__, H=H, layout=lay, via=via, h=h, shape2d=shp))
         for H in ("harmonic", "pendulum") + (() if ctx.quick else ("henon",)):
             for h in (0.1, -0.1) + (() if ctx.quick else (0.25,)):
                 cases.append(dict(section="energy", method=M.__name__, H=H, h=h, steps=1024 if ctx.quick and implicit else 4096))
